@@ -63,6 +63,7 @@ class Stats:
         self.errors = []
         self.trace_digest = hashlib.sha256()
         self.states = set()
+        self.per_seed = []         # (i, digest) -- determinism self-test
 
     def merge(self, o: "Stats"):
         self.evaluations += o.evaluations
@@ -78,6 +79,7 @@ class Stats:
         if len(self.samples) < 3:
             self.samples.extend(o.samples[: 3 - len(self.samples)])
         self.violations.extend(o.violations)
+        self.per_seed.extend(o.per_seed)
         self.n_violating += o.n_violating
         self.errors.extend(o.errors)
 
@@ -113,6 +115,7 @@ def add_result(st: Stats, res: dict, seed: int, i: int, scn: dict, keep_viol: in
                 st.violations.append((seed, i, v["rule"], v["sig"], v["detail"], scn))
     if res.get("digest") is not None:
         st.trace_digest.update(res["digest"].encode())
+        st.per_seed.append((i, res["digest"][:16] + ":" + ",".join(sorted(v["rule"] for v in viol))))
 
 
 def _worker(prop_name: str, master: int, start: int, count: int, tier: str, deadline: float):
@@ -149,7 +152,7 @@ def run_parallel(prop_name: str, master: int, total: int, tier: str, jobs: int, 
     independent of the worker count."""
     t0 = _now()
     deadline = t0 + budget_s
-    chunk = chunk or max(1, min(2000, total // (jobs * 4) or 1))
+    chunk = chunk or max(1, min(500, total // 64 or 1))   # independent of the worker count
     starts = list(range(0, total, chunk))
     results = {}
     if jobs <= 1:
